@@ -103,6 +103,12 @@ def add_import_surface(rng, ir, comp_src=0.0, src_versions=None):
             own.append(derived)
             ctypes[pname] = ctypes[pname] + [base, derived]
         pkgfiles[pkg_file_key(pname)] = G.render_component(own, imports)
+    if rng.random() < 0.15:
+        # a package whose module object has no __loader__: its component is
+        # a real file (zcsim/nlpkg/zcsim_pnla/component.xml) that ZConfig
+        # finds through __path__ and opens as a file: URL
+        packages["zcsim_pnla"] = {"is_package": True, "noloader": True}
+        ctypes["zcsim_pnla"] = [comp_type("ptnla", "abx", conv=6)]
     if rng.random() < 0.2:
         # a component with a mistake that the schema machinery does not
         # notice: a datatype name that resolves to a MODULE
